@@ -323,6 +323,9 @@ def must_define(modname, fname, guaranteed):
     return result
 
 
+MUST_DEFINE_BASELINE = json.load(open(os.path.join(os.path.dirname(__file__), "c17_mustdefine_baseline.json"))) if os.path.exists(os.path.join(os.path.dirname(__file__), "c17_mustdefine_baseline.json")) else {}
+
+
 def job_guaranteed():
     led = Ledger()
     api = api_mod()
@@ -339,6 +342,11 @@ def job_guaranteed():
         summary[k] = {"proved": proved, "not_decided_statically": open_}
         for a in proved:
             led.record(f"{m.__name__}.load_one::post.guaranteed.{a}-is-set-on-every-return", "post", "discharged", "must-define", 0.0)
+        # attributes that are provable on the pinned tree (committed list) must stay provable: a lost proof is
+        # reported as undecided, the bounded generated-file driver looks for a concrete witness
+        for a in MUST_DEFINE_BASELINE.get(k, []):
+            if a in res and not res[a]:
+                led.record(f"{m.__name__}.load_one::post.guaranteed.{a}-is-set-on-every-return", "post", "unknown", "must-define", 0.0, detail=f"the returned dictionary no longer provably carries '{a}' on every return path")
     return {"ledger": led, "must_define": summary}
 
 
@@ -373,6 +381,29 @@ for path in sorted(glob.glob(os.path.join(data, "*")), key=lambda p: (os.path.ge
                 except AttributeError:
                     fails.append(((name, a), "declared attribute does not exist: " + name + "." + a)); continue
                 if v is None: fails.append(((name, a, os.path.basename(path)), "guaranteed attribute is None: " + name + "." + a))
+# generated minimal files: a single atom / a bond-less pair without optional data, dumped and reloaded
+import numpy as np, tempfile
+from iodata import IOData, dump_one, dump_many
+tmp = tempfile.mkdtemp()
+minimal = [IOData(atnums=[2], atcoords=np.zeros((1, 3)), title="one atom"), IOData(atnums=[10, 18], atcoords=np.array([[0.0, 0, 0], [0, 0, 6.0]]), title="no bonds", cellvecs=np.eye(3) * 20.0)]
+for name, mod in sorted(FORMAT_MODULES.items()):
+    if not (hasattr(mod, "dump_one") and hasattr(mod, "load_one")): continue
+    for k, obj in enumerate(minimal):
+        fn = os.path.join(tmp, f"min{k}.{name}")
+        try:
+            dump_one(obj, fn, fmt=name)
+        except Exception:
+            continue
+        cases += 1
+        for op in ("load_one", "load_many"):
+            if not hasattr(mod, op): continue
+            try:
+                objs = [load_one(fn, fmt=name)] if op == "load_one" else list(load_many(fn, fmt=name))
+            except Exception:
+                continue
+            for o in objs:
+                for a in getattr(mod, op).guaranteed:
+                    if getattr(o, a, None) is None: fails.append(((name, a, "generated minimal file"), "guaranteed attribute is None: " + name + "." + a))
 sig = {}
 for f in fails: sig.setdefault(f[1], f)
 print(json.dumps(dict(cases=cases, loaded=loaded, nfails=len(fails), kinds={k: repr(v)[:400] for k, v in sig.items()}), default=str))
@@ -411,9 +442,13 @@ if bad:
 def run(chk):
     chk.functions += [f"{API}._select_format_module", f"{API}._select_input_module", f"{API}._find_format_modules (ground)", "iodata.docstrings._document_load/_document_dump (ground: declared lists)", "load_one of the format modules (must-define of guaranteed keys where the result is a dict literal)"]
     chk.trusted += ["z3", "fnmatch.fnmatch and os.path.basename are pure functions of their arguments (uninterpreted in S1, the real ones in S2)", "pkgutil.iter_modules lists a directory in sorted order", "dict iteration follows insertion order"]
-    chk.assumptions += ["S5 (required attributes are enforced before the output file is opened) is C08", "guaranteed attributes filled by section-driven loops cannot be decided statically; they are covered by the bounded corpus check only and listed under must_define.not_decided_statically"]
+    chk.assumptions += ["S5 (required attributes are enforced before the output file is opened): the dump_one obligations of C08 are re-run here", "guaranteed attributes filled by section-driven loops cannot be decided statically; they are covered by the bounded corpus check only and listed under must_define.not_decided_statically"]
     jobs = [("checks.c17", "job_select", {"attrname": a}) for a in OPS] + [("checks.c17", "job_select_generic", {})]
     jobs += [("checks.c17", f, {}) for f in ("job_select_input", "job_ground", "job_guaranteed")]
+    # S5: required attributes are enforced before the output file is opened (the obligations of C08 for dump_one)
+    from checks import c08
+
+    jobs += [("checks.c08", "job_dump_one", {"modname": m}) for m in sorted(c08.dump_modules("dump_one"))] + [("checks.c08", "job_check_required", {})]
     res = collect(chk, run_jobs(jobs))
     for r in res:
         for k in ("selection_cases", "declared_names", "must_define"):
